@@ -29,6 +29,7 @@ type Cfg struct {
 	PoolKeys     []string                      // pool kinds usable as map keys
 	PoolGen      map[string]func(*rapid.T) Val // value generators for pool kinds
 	Fallbacks    bool                          // occasionally add an `embed` fallback field (map[string]T or jsontext.Value)
+	EmbedPc      int                           // probability (percent) that a struct field is an embedded struct (default 14)
 	LegacyString bool                          // allow the `string` option on bool/string fields too (valid only with v1 semantics)
 }
 
@@ -183,7 +184,11 @@ func (g *descGen) strctIn(depth int, used map[string]bool) *Desc {
 			d.Fields = append(d.Fields, f)
 			continue
 		}
-		if g.cfg.Embedding && depth > 1 && rapid.IntRange(0, 6).Draw(t, "embed?") == 0 {
+		embedPc := g.cfg.EmbedPc
+		if embedPc == 0 {
+			embedPc = 14
+		}
+		if g.cfg.Embedding && depth > 1 && rapid.IntRange(0, 99).Draw(t, "embed?") < embedPc {
 			scope := used
 			if g.cfg.CollideNames {
 				scope = map[string]bool{}
@@ -283,6 +288,7 @@ type ValCfg struct {
 	MaxLen       int                           // max container length (default 3)
 	RawInvalid   bool                          // jsontext.Value leaves may hold arbitrary bytes
 	TimeWide     bool                          // times outside year 0..9999
+	Zones        bool                          // times carry fixed zones with arbitrary (also hostile) names
 }
 
 var int64Edges = []int64{0, 1, -1, 2, 7, 10, 100, 127, 128, -128, -129, 255, 256, 32767, 32768, -32768, 65535, 65536, 1<<31 - 1, 1 << 31, -(1 << 31), 1<<32 - 1, 1 << 32, 1<<53 - 1, 1 << 53, 1<<53 + 1, -(1 << 53) - 1, math.MaxInt64, math.MinInt64, math.MaxInt64 - 1, math.MinInt64 + 1, 999999999, 1000000000, 1000000001, -999999999, -1000000000, -1000000001, 9999999999999, 1e15, 1e18, 1e18 + 1, -1e18}
@@ -428,7 +434,13 @@ func (g *valGen) val(d *Desc, budget int) Val {
 			sec = rapid.SampledFrom([]int64{253402300800, -62167219201, 1e12, -1e12}).Draw(t, "secwide")
 		}
 		ns := rapid.SampledFrom([]int64{0, 0, 1, 999, 1000, 999999, 1000000, 999999999, 500000000, 123456789, 100000000, 120000000}).Draw(t, "nsec")
-		return Val{I: sec, N: ns}
+		tv := Val{I: sec, N: ns}
+		if g.vc.Zones && rapid.IntRange(0, 2).Draw(t, "zone?") == 0 {
+			tv.S = []byte(rapid.SampledFrom([]string{"UTC", "MST", "CEST", "", "Q\"Z", "a\\b", "x\ny", "\xff", "<&>", "é", "+0130", "-07"}).Draw(t, "zonename"))
+			tv.U = uint64(int64(rapid.SampledFrom([]int{0, 3600, -25200, 5400, 1, -1, 86399}).Draw(t, "zoneoff")))
+			tv.B = true
+		}
+		return tv
 	case d.K == "dur":
 		return Val{I: g.i64()}
 	case d.K == "any":
